@@ -20,5 +20,8 @@ def run(pid, tier, replay):
     if pid in ("C10", "C11", "C12"):
         from . import p_src
         return p_src.main(pid, tier, replay)
+    if pid in ("C14",):
+        from . import p_pipe
+        return p_pipe.main(pid, tier, replay)
     print("unknown or unclaimed property %s" % pid)
     return 2
